@@ -430,7 +430,7 @@ void verif_run(verif::Args const& a, verif::Evidence& ev)
               "equal_pixels (single-channel flip at every position, or 48 sampled for large views; changes outside the view must not matter), copy_and_convert (+color_converted_view), image ==). "
               "oracle: byte identity of the whole destination buffer with the per-pixel-loop model. non-trivial: non-empty, destination is a sub-view / padded / stepped and the two sides differ in type, program or root kind; "
               "distinct = (pair, algorithm, both roots, both programs).";
-    int cases = th ? 200000 : 12000;
+    int cases = th ? 600000 : 12000;
     verif::rc_search(ev, a, "algo", cases, 60, [&] { return gen_case(th); }, run_case, nontrivial, {"pair", "algo", "wh", "src", "dst", "src_prog", "dst_prog"});
     for (int pi : my_pairs()) ev.classify(std::string("pair:") + cfg_name(PAIRS[pi].s) + "->" + cfg_name(PAIRS[pi].d));
     (void)algo_name;
